@@ -18,8 +18,11 @@
      exhaustively on small formats by the correspondence run.
    * classic_2fma: round-to-nearest-even with Flocq's simplified no-underflow
      hypotheses (ErrFMA_correct_simpl).
-   * frexp: `_partial` -- the exponent is rounded without exact=True and an
-     operand without a context is rejected (`frexp_..._refuted`). *)
+   * frexp: proved for the repaired source variant (`_repaired`: no
+     x.normalize(), exponent rounded with exact=True; which variant /repo has
+     is read off the source on every run); for the variant at the pinned
+     revision only `_partial`, with `frexp_..._refuted`: the exponent is rounded
+     without exact=True and an operand without a context is rejected. *)
 From Coq Require Import ZArith List Bool String Reals.
 From Flocq Require Import Core.
 From FpyV Require Import Num.RealFloat Num.RealFloatProofs Num.Float
@@ -225,19 +228,28 @@ Theorem C20_modf_recombine :
 Proof. exact modf_recombine. Qed.
 Print Assumptions C20_modf_recombine.
 
-Theorem C20_frexp_recombine_partial :
+Theorem C20_frexp_recombine_repaired :
   forall (fc : fctx) (xctx : option (Z * option Z)) (r : rf) (m e : fl),
   rf_wf r -> is_zero r = false ->
-  core_frexp fc xctx (FFin r) = Ok (m, e) ->
-  exists y : rf, float_normalize xctx r = Ok y /\ fl_fin m /\
-    fl_val m * bpow radix2 (rf_e y) = R2R r /\ 1 <= Rabs (fl_val m) < 2 /\
-    fl_round fc false (FFin (RF (rf_e y <? 0)%Z 0 (Z.abs (rf_e y)))) = Ok e.
+  core_frexp frexp_repaired fc xctx (FFin r) = Ok (m, e) ->
+  fl_fin m /\ fl_fin e /\ fl_val e = IZR (rf_e r) /\
+  fl_val m * bpow radix2 (rf_e r) = R2R r /\ 1 <= Rabs (fl_val m) < 2 /\ fl_s m = rs r.
+Proof. exact frexp_recombine_repaired. Qed.
+Print Assumptions C20_frexp_recombine_repaired.
+
+Theorem C20_frexp_recombine_partial :
+  forall (v : frexp_variant) (fc : fctx) (xctx : option (Z * option Z)) (r : rf) (m e : fl),
+  rf_wf r -> is_zero r = false ->
+  core_frexp v fc xctx (FFin r) = Ok (m, e) ->
+  exists y : rf, (if fv_normalize v then float_normalize xctx r else Ok r) = Ok y /\ fl_fin m /\
+    fl_val m * bpow radix2 (rf_e y) = R2R r /\ 1 <= Rabs (fl_val m) < 2 /\ fl_s m = rs r /\
+    fl_round fc (fv_exact_e v) (FFin (RF (rf_e y <? 0)%Z 0 (Z.abs (rf_e y)))) = Ok e.
 Proof. exact frexp_recombine_partial. Qed.
 Print Assumptions C20_frexp_recombine_partial.
 
 Theorem C20_frexp_specials :
-  forall (fc : fctx) (xctx : option (Z * option Z)) (x m e : fl),
-  core_frexp fc xctx x = Ok (m, e) ->
+  forall (v : frexp_variant) (fc : fctx) (xctx : option (Z * option Z)) (x m e : fl),
+  core_frexp v fc xctx x = Ok (m, e) ->
   match x with
   | FFin r => is_zero r = true -> fl_fin m /\ fl_val m = 0 /\ fl_s m = rs r /\ fl_fin e /\ fl_val e = 0
   | FInf s => m = FInf s /\ fl_isnan e = true
@@ -247,13 +259,13 @@ Proof. exact frexp_specials. Qed.
 Print Assumptions C20_frexp_specials.
 
 Theorem C20_frexp_no_context_refuted :
-  forall (fc : fctx) (r : rf), is_zero r = false -> core_frexp fc None (FFin r) = Err ValueErr.
+  forall (fc : fctx) (r : rf), is_zero r = false -> core_frexp frexp_pinned fc None (FFin r) = Err ValueErr.
 Proof. exact frexp_no_context_rejected. Qed.
 Print Assumptions C20_frexp_no_context_refuted.
 
 Theorem C20_frexp_exponent_rounded_refuted :
   exists (fc : fctx) (xctx : option (Z * option Z)) (r m e : rf),
-  core_frexp fc xctx (FFin r) = Ok (FFin m, FFin e) /\
+  core_frexp frexp_pinned fc xctx (FFin r) = Ok (FFin m, FFin e) /\
   rf_eqb e (RF false 0 (rf_e r)) = false /\ rf_eqb m (RF false 0 1) = true /\ rf_e r = 5%Z.
 Proof. exact frexp_exponent_rounded_refuted. Qed.
 Print Assumptions C20_frexp_exponent_rounded_refuted.
